@@ -34,7 +34,7 @@ class C27(Check):
                   "stub": ["socket module", "server (scripted listener)", "store clock advanced by the simulator"]}
     assumptions = ["a bare Client that loses an established connection is reopened by its owner; only failed attempts are its own job",
                    "bound = ceil((timeout + latency*dt)/dt) + 6 service rounds after the quiet point"]
-    required_probes = ["reconnected-after-loss", "reconnected-after-failed-attempts", "blackhole", "nonreconnectable-stays-down", "addresses-checked"]
+    required_probes = ["reconnected-after-loss", "reconnected-after-failed-attempts", "blackhole", "nonreconnectable-stays-down", "addresses-checked", "patron-sse", "patron-partial", "patron-plain", "nonreconnectable-stays-down-with-open-event-stream"]
     quick_runs = 20000
     thorough_runs = 1000000
     shrink_fields = ["faults", "schedule"]
@@ -49,6 +49,10 @@ class C27(Check):
              "schedule": [["svc"], ["svc"], ["svc"], ["svc"], ["fin"], ["svc"], ["svc"]], "faults": [["connect@cli", 1, "refuse"]]},
             {"kind": "patron", "reconnectable": False, "timeout": 0.5, "dt": 0.25, "latency": 0, "up0": True,
              "schedule": [["svc"], ["svc"], ["svc"], ["reset"], ["svc"], ["svc"], ["svc"], ["svc"]], "faults": []},
+            {"kind": "patron", "reconnectable": False, "timeout": 0.5, "dt": 0.25, "latency": 0, "up0": True, "exchange": "sse",
+             "schedule": [["svc"], ["svc"], ["svc"], ["svc"], ["fin"], ["svc"], ["svc"], ["svc"], ["svc"]], "faults": []},
+            {"kind": "patron", "reconnectable": True, "timeout": 0.5, "dt": 0.25, "latency": 0, "up0": True, "exchange": "sse",
+             "schedule": [["svc"], ["svc"], ["svc"], ["svc"], ["reset"], ["svc"], ["svc"]], "faults": []},
         ]
 
     def generate(self, S, index, tier):
@@ -79,7 +83,10 @@ class C27(Check):
                     faults.append(["connect@cli", occ, k, f.choice(LOSS)] if k == "errno" else ["connect@cli", occ, k])
         return {"kind": kind, "reconnectable": g.random() < 0.75, "timeout": g.choice([0.25, 0.5, 1.0, 2.0]),
                 "dt": g.choice([0.0625, 0.125, 0.25, 0.5, 1.0]), "latency": g.choice([0, 0, 1, 3]), "up0": g.random() < 0.6,
-                "schedule": sched, "faults": faults}
+                "schedule": sched, "faults": faults,
+                # HTTP client only: a request is outstanding and the scripted server has answered it completely / partly / with
+                # an event stream that is still open when the connection is lost
+                "exchange": g.choice([None, "plain", "partial", "sse", "sse"]) if kind == "patron" else None}
 
     def execute(self, plan):
         from ioflo.aio.tcp import clienting
@@ -104,6 +111,9 @@ class C27(Check):
                 if lst[0] is not None and not lst[0].closed:
                     lst[0].close()
 
+            exchange = plan.get("exchange")
+            inbuf = {}
+
             def server_accept():
                 if lst[0] is not None and not lst[0].closed:
                     while True:
@@ -112,6 +122,30 @@ class C27(Check):
                         except OSError:
                             break
                         accepted.append(s)
+                if not exchange:
+                    return
+                for s in accepted:       # the scripted HTTP server: one (possibly unfinished) answer per request seen
+                    if s.closed:
+                        continue
+                    try:
+                        data = s.recv(1 << 16)
+                    except OSError:
+                        continue
+                    buf = inbuf.setdefault(id(s), bytearray())
+                    buf.extend(data)
+                    while b"\r\n\r\n" in buf:
+                        del buf[:buf.index(b"\r\n\r\n") + 4]
+                        if exchange == "plain":
+                            reply = b"HTTP/1.1 200 OK\r\nContent-Length: 2\r\n\r\nok"
+                        elif exchange == "partial":
+                            reply = b"HTTP/1.1 200 OK\r\nContent-Length: 10\r\n\r\nabc"
+                        else:
+                            reply = (b"HTTP/1.1 200 OK\r\nContent-Type: text/event-stream\r\n\r\nretry: %d\n\nid: 7\ndata: a\n\n" % int(timeout * 1000))
+                        try:
+                            s.send(reply)
+                        except OSError:
+                            pass
+                        out.probe("patron-" + exchange)
 
             if plan["up0"]:
                 up()
@@ -125,6 +159,8 @@ class C27(Check):
                 from ioflo.aio.http import clienting as hclienting
                 pat = hclienting.Patron(store=store, hostname="127.0.0.1", port=PORT, bufsize=64, timeout=timeout, reconnectable=rec)
                 pat.open()
+                if exchange:
+                    pat.request(method="GET", path="/stream")
                 cl = pat.connector
                 service = pat.serviceAll
                 clock = store
@@ -151,6 +187,12 @@ class C27(Check):
                 h = get()
                 try:
                     service()
+                except BrokenPipeError:
+                    # EPIPE (a write after the peer's FIN) is not a connection-loss errno: it propagates by C25 and the owner of
+                    # the client deals with it; this party is then ended and nothing more is judged in this run
+                    state["ended"] = True
+                    out.probe("ended-by-epipe")
+                    return False
                 except Exception as ex:
                     out.violate("exception", "%s service raised %s" % (kind, type(ex).__name__), repr(ex))
                     return False
@@ -187,7 +229,7 @@ class C27(Check):
                     net.deliver_all()
                 elif code == "tick":
                     advance(stp[1] * dt)
-            if out.violations:
+            if out.violations or state.get("ended"):
                 out.digest = tr.digest()
                 return out
             for f in net.faults.fired:
@@ -223,7 +265,7 @@ class C27(Check):
                     stable_from = None
             h = get()
             tr.add("final", bool(h.connected), bool(h.cutoff), stable_from)
-            if not out.violations:
+            if not out.violations and not state.get("ended"):
                 if rec:
                     if not feasible:
                         out.probe("infeasible-latency-not-judged")
@@ -241,6 +283,8 @@ class C27(Check):
                                         "client sockets at cut off %r, now %r, connected=%s cutoff=%s" % (state["socks_at_cut"], now, h.connected, h.cutoff))
                         else:
                             out.probe("nonreconnectable-stays-down")
+                            if exchange == "sse" and out.probes.get("patron-sse"):
+                                out.probe("nonreconnectable-stays-down-with-open-event-stream")
                 if not out.violations and h.connected and not h.cutoff:
                     cs = h.cs
                     try:
